@@ -535,6 +535,11 @@ func RunEmb$N() string {
 	}
 	return out + " no Who"
 }`, `RunEmb$N() + cfg$Nq{}.Who()`},
+	{"ungrouped-var-ending-in-a-qualified-name-with-literal-params-named-like-imports", `var total$N = func(strings string, n int) int { return len({STR}ToUpper(strings))*{LIB}Const + n }("ab", 3) + {LIB}Const
+
+var fn$N func(fmt string) *{LIB}Other
+
+type handler$N func(strings string, fmt int) {LIB}Exported`, `total$N`},
 	{"go-embed-directive-attached", `//go:embed embed_data.txt
 var embedded$N string
 
@@ -572,4 +577,4 @@ func UseBox$N() string {
 
 // c15NeedsStrAlias: snippets that declare a local named "strings" and use package strings inside
 // its scope — legal only where the user's own name for that package is something else.
-var c15NeedsStrAlias = map[string]bool{"locals-consts-types-typeparams-named-like-generated-imports": true, "local-generic-type-named-like-import-embedded-and-selected": true}
+var c15NeedsStrAlias = map[string]bool{"locals-consts-types-typeparams-named-like-generated-imports": true, "local-generic-type-named-like-import-embedded-and-selected": true, "ungrouped-var-ending-in-a-qualified-name-with-literal-params-named-like-imports": true}
